@@ -53,8 +53,8 @@ class _Chains:
     def facts(self, v, i):
         """A1..A3 instantiated at chain v, index i (and i-1)"""
         L, c, w = self.L, self.c, self.w
-        self.ctx.assume(z3.And(L(v) >= 1, c(v, 0) == 1, c(v, L(v) - 1) == v, c(v, i) >= 1))
         inr = z3.And(i >= 0, i < L(v))
+        self.ctx.assume(z3.And(L(v) >= 1, c(v, 0) == 1, c(v, L(v) - 1) == v, z3.Implies(inr, c(v, i) >= 1)))
         u = c(v, i)
         self.ctx.assume(z3.Implies(inr, z3.And(L(u) == i + 1, c(u, i) == u,
                                                z3.Implies(i >= 1, z3.And(c(u, i - 1) == c(v, i - 1), c(v, i - 1) >= 1)))))
@@ -170,6 +170,97 @@ def vc_power_supply(H):
         ctx.oblige('post: the last yielded value is x ** n', r.items[1].e.t == T.t)
         return r
     H.run_paths(fuc, 'int exponent', body)
+
+
+def vc_power_supply_consecutive(H):
+    """power_supply(x, (1, 2, .., N)) for EVERY N >= 1 (the form codegen_shirokov_inv uses): the k-th yielded value is x ** (k + 1).
+    Invariant: `powers` holds exactly the exponents 1..k.  For a new exponent v = k + 1 >= 2 the chain of v ends with
+    .., a, v with v = a + b, a and b earlier elements, hence 1 <= a, b <= k: both look-ups hit (chain facts A1, A3)."""
+    fuc = H.fn(CG, 'power_supply')
+
+    def body(ctx):
+        G = _Chains(ctx)
+        N = SInt(z3.Int('N'))
+        ctx.assume(N.t >= 1)
+        L, c = G.L, G.c
+        made = []
+        exps = SymSeq(None, N, lambda i: i + 1, 'tuple')
+
+        class AC:
+            def kvc_call(self, interp, limit):
+                made.append(limit)
+                return self
+
+            def kvc_getitem(self, interp, n):
+                n = sint(n)
+                ctx.safety('KeyError: addition chain beyond the limit AdditionChains was built for', z3.And(n.t >= 1, n.t <= sint(made[-1]).t))
+                G.facts(n.t, L(n.t) - 1)
+                return _ChainSeq(G, n)
+
+        class Max:
+            def kvc_call(self, interp, *a, **k):
+                if len(a) == 1 and a[0] is exps and not k:
+                    return N
+                raise OutOfSubset('max() of something other than the exponent sequence')
+        st = {}
+
+        class Powers:
+            def __init__(self, n):
+                self.n, self.store = n, None
+
+            def present(self, k):
+                old = z3.Or(k == 1, z3.And(k >= 1, k <= self.n.t))
+                return old if self.store is None else z3.Or(k == self.store[0].t, old)
+
+            def kvc_contains(self, interp, k):
+                return mkbool(self.present(sint(k).t))
+
+            def kvc_getitem(self, interp, k):
+                k = sint(k)
+                ctx.safety('KeyError: powers[..] of an exponent that has not been computed yet', self.present(k.t))
+                if self.store is not None:
+                    return PowVal(SInt(z3.If(k.t == self.store[0].t, self.store[1].e.t, k.t)))
+                return PowVal(k)
+
+            def kvc_setitem(self, interp, k, v):
+                if self.store is not None or not isinstance(v, PowVal):
+                    raise OutOfSubset('powers[..] stored twice in one iteration, or a value that is not a power of x')
+                self.store = (sint(k), v)
+
+        def establish(interp, env, it):
+            if it is not exps:
+                raise OutOfSubset('power_supply: the loop does not run over the exponent sequence')
+            p = env.lookup('powers')
+            ok = isinstance(p, dict) and list(p) == [1] and isinstance(p[1], PowVal)
+            ctx.oblige('inv-init: powers == {1: x}', z3.BoolVal(False) if not ok else p[1].e.t == 1, 'inv')
+            st['yields'] = interp._yield_target(env)
+            ctx.oblige('inv-init: nothing yielded before the loop', len(st['yields']) == 0, 'inv')
+
+        def havoc(interp, env, it, n, at_exit):
+            env.vars['powers'] = st['powers'] = Powers(n)
+            if at_exit:
+                st['yields'].extend([_Earlier(), PowVal(N)])
+
+        def preserve(interp, env, it, n):
+            step = n.t + 1
+            p, ys = st['powers'], st['yields']
+            ctx.oblige('inv-step: exactly one value is yielded per exponent', len(ys) == 1 and isinstance(ys[0], PowVal), 'inv')
+            if len(ys) == 1 and isinstance(ys[0], PowVal):
+                ctx.oblige('inv-step: the value yielded for exponent e is x ** e', ys[0].e.t == step, 'inv')
+            if p.store is not None:
+                ctx.oblige('inv-step: a new entry is stored under the exponent itself and holds x ** (that exponent)',
+                           z3.And(p.store[0].t == step, p.store[1].e.t == step), 'inv')
+            else:
+                ctx.oblige('inv-step: nothing stored only if the exponent is already present', p.present(step), 'inv')
+        spec = LoopSpec(establish, havoc, preserve, header='step in exponents')
+        interp = Interp(ctx, loop_specs={('power_supply', 0): spec}, source_name=CG)
+        r = H.closure(interp, fuc, {'AdditionChains': AC(), 'max': Max()})(PowVal(1), exps)
+        ok = isinstance(r, GenList) and len(r.items) == 2 and isinstance(r.items[1], PowVal)
+        if not ok:
+            raise OutOfSubset('power_supply: the result is not the generator of the loop (contract does not apply)')
+        ctx.oblige('post: AdditionChains is built for the largest exponent', len(made) == 1 and isinstance(made[0], SInt) and z3.eq(made[0].t, N.t))
+        return r
+    H.run_paths(fuc, 'exponents 1..N', body)
 
 
 # =====================================================================================
